@@ -105,6 +105,8 @@ PENDING_FINDING: set = set()  # registered as KF-C03-reset-behind-parked-reader 
 YLOG_CARRIERS = ("h1", "h2", "ws/h1", "ws/h2")
 YLOG_APPS = {"http": ("gated", "early"), "ws": ("session", "reject")}
 YLOG_FAULTS = ("eof", "reset", "terminate")
+REAL_LOGGERS = ("reallog", "statsd")
+REAL_APPS = {"http": ("gated", "early", "crash_mid", "late"), "ws": ("session", "reject", "crash_open")}
 
 
 class YieldingLoggerAsyncio(RecordingLogger):
@@ -145,6 +147,14 @@ def scenarios(tier: str) -> List[Any]:
             for app in YLOG_APPS["ws" if carrier.startswith("ws") else "http"]:
                 for fault in YLOG_FAULTS:
                     out.append((engine, carrier, app, fault, "ylog"))
+        # the shipped Logger / StatsdLogger classes themselves (mc.core.real_logger_class): the record exists only
+        # if Logger.access -> atoms -> AccessLogAtoms -> the configured format went through; the statsd logger awaits
+        # its datagrams after the record (asyncio: the first datagram of the worker opens the endpoint and yields)
+        for kind in REAL_LOGGERS:
+            for carrier in YLOG_CARRIERS:
+                for app in REAL_APPS["ws" if carrier.startswith("ws") else "http"]:
+                    for fault in ("none",) + YLOG_FAULTS:
+                        out.append((engine, carrier, app, fault, kind))
     return out
 
 
@@ -220,6 +230,12 @@ def build(params: Any) -> tuple:
     }
     if params[4:] == ("ylog",):
         sc["logger_base"] = YieldingLoggerTrio if engine == "trio" else YieldingLoggerAsyncio
+    elif params[4:] == ("reallog",):
+        sc["logger"] = "real"
+        sc["config"]["access_log_format"] = '%(h)s %(S)s "%(R)s" %(s)s %(st)s %(b)s "%(f)s" "%(a)s" %(D)s %({host}i)s %({content-length}o)s'
+    elif params[4:] == ("statsd",):
+        sc["logger"] = "statsd"
+        sc["config"]["statsd_prefix"] = "hc"
     return engine, sc
 
 
